@@ -441,10 +441,16 @@ class EqObligation(Obligation):
 
     # -- native execution helpers
     def _native(self, b, val):
+        import contextlib, io
         arrays = [jnp.asarray(a, dtype=i.example().dtype) for a, i in zip(val.arrays, b["inputs"])]
-        with concrete(val.seed):
+        with concrete(val.seed), contextlib.redirect_stdout(io.StringIO()):      # the code's own progress prints are not ours
             out = b["fn"](*arrays)
-        return [np.asarray(x, dtype=float) for x in jax.tree_util.tree_leaves(out)]
+            out = [np.asarray(x, dtype=float) for x in jax.tree_util.tree_leaves(out)]
+            try:
+                jax.effects_barrier()
+            except Exception:
+                pass
+        return out
 
     def _crosscheck(self, res, b, impl_l, seed, it=None):
         try:
